@@ -196,6 +196,27 @@ fn k_varint_put_too_small() {
   }
 }
 
+/// bounded(16-byte buffer holding 3 bytes, live neighbour behind it, full u32 domain): the unchecked and the std::io
+/// flavoured LEB128 writers append at `len`, keep what was written before and stay inside the buffer
+#[kani::proof]
+#[kani::unwind(18)]
+fn k_varint_append_nonempty() {
+  let a = arena(64, Freelist::None);
+  let mut b = a.alloc_bytes(16).unwrap();
+  let mut g = a.alloc_bytes(8).unwrap();
+  g.put_slice(&[0xAA; 8]).unwrap();
+  b.put_slice(&[0x81, 0x82, 0x83]).unwrap();
+  let v: u32 = kani::any();
+  let unchecked: bool = kani::any();
+  let n = if unchecked { b.put_u32_varint_unchecked(v) } else { b.write_u32_varint(v).unwrap() };
+  assert!(n >= 1 && n <= 5 && b.len() == 3 + n);
+  assert!(b[0] == 0x81 && b[1] == 0x82 && b[2] == 0x83);
+  let (m, w) = dbutils::leb128::decode_u32_varint(&b[3..]).unwrap();
+  assert!(m == n && w == v);
+  let mut i = 0;
+  while i < 8 { assert!(g[i] == 0xAA); i += 1; }
+}
+
 // ---- C19: checksum covers exactly allocated_memory()[reserved..] -----------------------------------------------------
 /// a checksummer whose digest is sensitive to dropped, duplicated or re-ordered chunks without looking at byte values
 /// in a loop: digest = sum over chunks of (start position + 1) * chunk length, plus the total length in the high bits
